@@ -1,3 +1,111 @@
-/- C02 — property theorems only (helper lemmas live in `Rooc/Proofs`). -/
+/-
+C02 — Linearization preserves objective values and optima.  PROPERTY THEOREMS ONLY.
+Same setting as `Rooc/Props/C01.lean` (see its header for the vocabulary and the proof stages).
+
+FULL TARGET (stated here; only the parts that are PROVED appear below as declarations): under the hypotheses of
+`c01`, for every source-feasible ρ with `eval ρ m.objective = some v`:
+  * min : every extension ρ' of ρ (agreeing on the declared used variables) with `linFeasible lm ρ'` has
+          `linObjective lm ρ' = some w` with `v ≤ w`, and some such extension attains `w = v`;
+  * max : dually (`w ≤ v`, attained);   * satisfy : every feasible extension has `w = v`.
+Consequently equal optimal values / optimal projections / infeasible-unbounded status.
+-/
+import Rooc.Proofs.LinC10
+import Rooc.Proofs.LinExamples
+import Rooc.Proofs.LinMain
 namespace Rooc.Props.C02
+open Rooc Rooc.Lin Rooc.Sem Rooc.LinP
+
+variable {K : Type} [Field K] [LinearOrder K] [IsStrictOrderedRing K] [FloorRing K]
+
+/-- **C02 on purely affine models**: the linear objective (with its offset) IS the source objective, at every
+assignment at which the source objective is defined (no auxiliaries, so nothing to optimise over). -/
+theorem c02_affine {m : Model (Ext K)} {b : BoundsMap (Ext K)} {d : List (DomVar (Ext K))} {lm : LinModel (Ext K)}
+    (h : linearizeWith m b d = .ok lm) (haff : AffineModel m d) :
+    lm.optType = m.optType ∧
+    ∀ (ρ : String → K) (v : K), eval ρ m.objective = some v → linObjective lm ρ = some v := by
+  refine ⟨?_, fun ρ v hv => affine_objective flattenSound simplifySoundArith haff h ρ v hv⟩
+  obtain ⟨_, _, h1, _⟩ := linearizeWith_affine flattenSound simplifySoundArith haff h
+  exact h1
+
+/-- non-vacuity of `c02_affine` (`min x s.t. x ≤ y`). -/
+example : ∃ (m : Model (Ext K)) (b : BoundsMap (Ext K)) (d : List (DomVar (Ext K))) (lm : LinModel (Ext K)),
+    linearizeWith m b d = .ok lm ∧ AffineModel m d ∧ ∀ ρ : String → K, ∃ v, eval ρ m.objective = some v := by
+  obtain ⟨lm, h⟩ := exAffine_ok (K := K)
+  exact ⟨exAffine, [], exAffine.domain, lm, h, exAffine_hyps.1, fun ρ => ⟨ρ "x", by simp [exAffine, eval]⟩⟩
+
+/-- corollary in the shape of the full target: on an affine model every feasible "extension" has exactly the
+source objective value (so the best one does, in either direction). -/
+theorem c02_affine_best {m : Model (Ext K)} {b : BoundsMap (Ext K)} {d : List (DomVar (Ext K))} {lm : LinModel (Ext K)}
+    (h : linearizeWith m b d = .ok lm) (haff : AffineModel m d)
+    (ρ ρ' : String → K) (hag : ∀ v, inScope d v → ρ' v = ρ v) (v : K) (hv : eval ρ m.objective = some v) :
+    linObjective lm ρ' = some v := by
+  apply (c02_affine h haff).2
+  rw [eval_congr m.objective (fun x hx => hag x (haff.obj.2 x hx))]
+  exact hv
+
+/-- **C02 on piecewise-linear models** (objective and constraints from literals, variables, `+ - * /`, unary
+minus, `abs`, `min`, `max`; see `Rooc.Props.C01.c01_partial` for the hypotheses): for a source-feasible `ρ`
+with objective value `v`,
+* every auxiliary extension `ρ'` that is feasible for the linear model has a linear objective value `w` on the
+  right side of `v` — `rel (objReq m) w v` is `v ≤ w` for `min`, `w ≤ v` for `max`, `w = v` for `satisfy` —
+* and some feasible extension attains `w = v`.
+So the best linear objective over the extensions, in the model's own direction, is the source objective. -/
+theorem c02_partial {m : Model (Ext K)} {b : BoundsMap (Ext K)} {d : List (DomVar (Ext K))}
+    {lm : LinModel (Ext K)} (h : linearizeWith m b d = .ok lm)
+    (hm : FragModel true m d) (hdom : DomRel m d) (hbox : BoxEnforced b d)
+    (ρ : String → K) (hs : srcFeasible m ρ = true) (v : K) (hv : eval ρ m.objective = some v) :
+    (∀ ρ' : String → K, (∀ x, inScope d x → ρ' x = ρ x) → linFeasible lm ρ' = true →
+        ∃ w, linObjective lm ρ' = some w ∧ rel (objReq m) w v) ∧
+    (∃ ρ' : String → K, (∀ x, inScope d x → ρ' x = ρ x) ∧ linFeasible lm ρ' = true ∧
+        linObjective lm ρ' = some v) :=
+  pl_objective hm hdom hbox h ρ hs v hv
+
+/-- the requirement chosen for the objective, spelled out. -/
+theorem objReq_cases (m : Model (Ext K)) (w v : K) :
+    rel (objReq m) w v ↔
+      match m.optType with
+      | .min => v ≤ w
+      | .max => w ≤ v
+      | .satisfy => w = v := by
+  unfold objReq
+  cases m.optType <;> simp [rel]
+
+/-- Consequence: equal optimal values for a minimisation model — `v` is the least source objective over
+source-feasible points iff it is the least linear objective over linear-feasible points (attained on both sides). -/
+theorem c02_min_optimum_partial {m : Model (Ext K)} {b : BoundsMap (Ext K)} {d : List (DomVar (Ext K))}
+    {lm : LinModel (Ext K)} (h : linearizeWith m b d = .ok lm)
+    (hm : FragModel true m d) (hdom : DomRel m d) (hbox : BoxEnforced b d) (hmin : m.optType = .min)
+    (ρ : String → K) (hs : srcFeasible m ρ = true) (v : K) (hv : eval ρ m.objective = some v)
+    (hopt : ∀ ρ₂ : String → K, srcFeasible m ρ₂ = true → ∀ v₂, eval ρ₂ m.objective = some v₂ → v ≤ v₂) :
+    (∃ ρ' : String → K, linFeasible lm ρ' = true ∧ linObjective lm ρ' = some v) ∧
+    (∀ ρ'' : String → K, linFeasible lm ρ'' = true → ∀ w, linObjective lm ρ'' = some w → v ≤ w) := by
+  obtain ⟨_, ρ', _, hf, ho⟩ := c02_partial h hm hdom hbox ρ hs v hv
+  refine ⟨⟨ρ', hf, ho⟩, ?_⟩
+  intro ρ'' hf'' w hw
+  -- `ρ''` is an extension of itself; its projection is source-feasible
+  have hsrc : srcFeasible m ρ'' = true :=
+    (pl_feasible_iff hm hdom hbox h ρ'').mpr ⟨ρ'', fun _ _ => rfl, hf''⟩
+  obtain ⟨v₂, hv₂⟩ := hm.objDefined ρ''
+  obtain ⟨hall, _⟩ := c02_partial h hm hdom hbox ρ'' hsrc v₂ hv₂
+  obtain ⟨w', hw', hrel⟩ := hall ρ'' (fun _ _ => rfl) hf''
+  rw [hw] at hw'; cases hw'
+  have := (objReq_cases m w v₂).mp hrel
+  rw [hmin] at this
+  exact le_trans (hopt ρ'' hsrc v₂ hv₂) this
+
+/-- non-vacuity of `c02_partial`. -/
+example : ∃ (m : Model (Ext K)) (b : BoundsMap (Ext K)) (d : List (DomVar (Ext K))) (lm : LinModel (Ext K))
+    (ρ : String → K) (v : K),
+    linearizeWith m b d = .ok lm ∧ FragModel true m d ∧ DomRel m d ∧ BoxEnforced b d ∧
+      srcFeasible m ρ = true ∧ eval ρ m.objective = some v := by
+  obtain ⟨lm, h⟩ := exAffine_ok (K := K)
+  obtain ⟨haff, hdef, hdom⟩ := exAffine_hyps (K := K)
+  refine ⟨exAffine, [], exAffine.domain, lm, fun _ => 0, 0, h, ⟨FG_of_AG haff.obj, ?_, ?_⟩, hdom, ?_, ?_, ?_⟩
+  · intro ρ; exact ⟨ρ "x", by simp [exAffine, eval]⟩
+  · intro c hc
+    exact ⟨(haff.cons c hc).notAssert, FG_of_AG (haff.cons c hc).lhs, FG_of_AG (haff.cons c hc).rhs, hdef c hc⟩
+  · intro ρ _ n bd hl; simp [lookupB] at hl
+  · simp [srcFeasible, exAffine, constraintHolds, eval, cmpK, inDomain, geExt, leExt]
+  · simp [exAffine, eval]
+
 end Rooc.Props.C02
